@@ -149,19 +149,27 @@ CHECKS["C13"] = {
 
 CHECKS["C18"] = {
     "pkg": "clienth",
-    "quick": {"wall_s": 25, "race_wall_s": 12, "race_max_runs": 1000},
-    "thorough": {"wall_s": 300, "race_wall_s": 120, "race_max_runs": 1800},
+    "pkgs": ["clienth", "gclienth"],
+    "quick": {"wall_s": 40, "race_wall_s": 16, "race_max_runs": 1000},
+    "thorough": {"wall_s": 400, "race_wall_s": 160, "race_max_runs": 1800},
     "rule": "Scenario: client.Reconnect (or a bare client) over BaseClient or CacheClient with 1..3 scripted client types registered through "
             "client.RegisterTest; per attempt: slow connect, Subscribe failure, 0..4 messages (1..3 notifications each, syncs), then error / "
             "EOF / ErrStopReading / block until Close or cancellation; retry base/max delay drawn per run, jitter off. An actor task calls "
             "Close or cancels the context before Subscribe, after 0..60 scheduling points, or after a virtual wait up to two minutes (during "
             "connect, while streaming, in back-off). Oracles: both calls return (quiescence = deadlock) and Subscribe within the back-off "
             "maximum in virtual time; never-closed reconnecting clients keep retrying; disconnect once per ended attempt and reset before each "
-            "retry; Connected first and notification order as produced; at most one further message after Close returned. "
-            "Non-trivial: more than two recorded events.",
-    "real": ["client (BaseClient, CacheClient, ReconnectClient, getFirst/NewImpl registry; instrumented)", "ctree", "cenkalti/backoff"],
-    "stub": ["client.Impl (scripted by the harness through client.RegisterTest)"],
-    "assumptions": ["backoff jitter disabled (RetryRandomization = 0)"],
+            "retry, never after the attempt ended with the subscription context cancelled; Connected first and notification order as "
+            "produced; at most one further message after Close returned. Transport variants: scripted ends of stream that beat the "
+            "cancellation, and a transport that ignores the context (like the repository's fake client; non-blocking scripts only). "
+            "Second harness (gclienth, half of the budget): the same ReconnectClient over the repository's real gNMI transport "
+            "(client/gnmi on the simulated gRPC) against a scripted gNMI server: dials refused / delayed / black-holed, streams with "
+            "delayed messages ending in error / EOF / silence, Close or cancel at a generated instant; oracles: both calls return within "
+            "the back-off maximum of virtual time (a connection attempt ends with its context, not with the query timeout), retries "
+            "continue while not closed, callback discipline, per stream Connected first and the stream's notifications in sent order, at "
+            "most one message after Close. Non-trivial: more than two recorded events.",
+    "real": ["client (BaseClient, CacheClient, ReconnectClient, getFirst/NewImpl registry; instrumented)", "client/gnmi (real transport, gclienth)", "ctree", "cenkalti/backoff"],
+    "stub": ["client.Impl (scripted by the harness through client.RegisterTest; clienth)", "grpc-go (simgrpc; gclienth)", "gNMI server (scripted; gclienth)"],
+    "assumptions": ["backoff jitter disabled (RetryRandomization = 0)", "a transport honours the subscription context when it blocks, except in the explicit ignore-context variant"],
 }
 
 CHECKS["C20"] = {
@@ -261,7 +269,7 @@ LEVELS = {
                 "slow connect, while streaming, in back-off) and over scripted stream outcomes, in virtual time; termination is decided by "
                 "simulator quiescence and a virtual-time bound, callback discipline by an automaton over recorded events. Evidence, not proof.",
         "design_ref": "7 C18",
-        "note": "The Impl under the client is the harness's scripted one (it emits Connected itself); the real gNMI Impl's Connected-first behaviour is exercised by the pipeline harness.",
+        "note": "Two harnesses: a scripted Impl (clienth) and the real gNMI Impl over the simulated gRPC (gclienth).",
         "technique": "deterministic simulation: seeded scheduler + virtual time + scripted stream faults + termination by quiescence",
     },
     "C13": {
